@@ -6,6 +6,7 @@ pub mod c01;
 pub mod c02;
 pub mod c03;
 pub mod c04;
+pub mod c05;
 pub mod c07;
 pub mod c08;
 pub mod c09;
@@ -48,6 +49,14 @@ pub fn registry() -> Vec<Entry> {
             200_000,
             "programs generated conforming-by-construction (main + 0-5 functions of arity 0-3 with or without result, leaf and non-leaf, any subset of saved registers, shuffled frame layouts with padding and spill slots, one- or two-step frame allocation, nested if/else and counted loops, calls in loops, recursion, early returns with a full second epilogue, ecalls with and without results, data loads/stores, mv/addi into a7) and confirmed by a dynamic convention monitor on 3 executions, rendered with every surface freedom; RVParser-level lint of the staged pipeline must return no diagnostic of any kind. Non-trivial = >= 2 functions, a frame with a saved register, a loop or branch, and a call inside a loop / recursion / >= 2 calls.",
             &["'conforming' is the statement's own list, enforced by construction and by the dynamic monitor (trusted base), never by what the analyzer accepts", "nop is not generated (it is an arithmetic write to the zero register)", "programs the monitor rejects are generator bugs: discarded and counted"],
+        ),
+        entry::<c05::C05>(
+            "C05",
+            1400,
+            3200,
+            250_000,
+            "clean base program (generated conforming, analyzer-clean, else skipped) x 16 violation classes (unsaved saved register modified; sp not restored (epilogue adjustment deleted or wrong); ra not restored; temporary read after a call; never-assigned temporary read in main / in a function; never-assigned saved register read; dead assignment; arithmetic write to zero; stack access at or above the entry sp; instructions in .data; ecall number loaded from memory; straight-line code after ret/exit; plain jump into a function; fall-through into the next function; called function first in the program) x admissible site/register. The mutated program must get a diagnostic of the class's kind located in the class's acceptance set (injected instruction / operand, or any instruction of the function writing the register for sp/ra). Where an execution can show the fault, the convention monitor must confirm it on the mutant first. Non-trivial = injection applied and (where observable) confirmed; evidence tabulates cases per class.",
+            &["acceptance sets are deliberately wide where the statement does not fix which of several offending instructions is meant", "convention monitor and clean generator are the trusted base"],
         ),
         entry::<c07::C07>(
             "C07",
